@@ -52,10 +52,14 @@ class Pair(Vector):
                 return arg.flatten_numer(Pair, recursive=recursive)
 
             # For any suitable Qube, move numerator items to the denominator
+            derivs = arg._derivs_
             if arg.rank > 1 and arg._numer_[0] == 2:
+                derivs = {}
+                for (key, deriv) in arg._derivs_.items():
+                    derivs[key] = deriv.split_items(1, Pair)
                 arg = arg.split_items(1, Pair)
 
-            arg = Pair(arg._values_, arg._mask_, derivs=arg._derivs_,
+            arg = Pair(arg._values_, arg._mask_, derivs=derivs,
                        example=arg)
             if recursive:
                 return arg
